@@ -51,9 +51,37 @@ pub struct Case {
   /// window of `w2` ms, the others one of `w` ms
   #[serde(default)]
   w2: Option<u32>,
+  /// a second, unjudged subscription made from a clone of the same operator value,
+  /// live at the same time: 1 = subscribed after the judged one, 2 = before it
+  /// (per-subscription state must not be shared between clones)
+  #[serde(default)]
+  twin: u8,
 }
 
 pub struct C09;
+
+fn sub_twin<Item, Err, O>(o: O, p: Probe, twin: u8) -> Box<dyn std::any::Any>
+where
+  O: Observable<Item, Err, Probe> + Clone,
+  Probe: Observer<Item, Err>,
+  O::Unsub: 'static,
+{
+  match twin {
+    1 => {
+      let o2 = o.clone();
+      let a = o.actual_subscribe(p);
+      let b = o2.actual_subscribe(Probe(ProbeLog::new(false)));
+      Box::new((a, b))
+    }
+    2 => {
+      let o2 = o.clone();
+      let b = o2.actual_subscribe(Probe(ProbeLog::new(false)));
+      let a = o.actual_subscribe(p);
+      Box::new((a, b))
+    }
+    _ => Box::new(o.actual_subscribe(p)),
+  }
+}
 
 /// expected output with its earliest delivery time
 type Exp = Vec<(Ev, u64)>;
@@ -262,13 +290,14 @@ impl Scenario for C09 {
     }
     let is_throttle = matches!(op, ROp::ThrottleLeading | ROp::ThrottleTailing | ROp::ThrottleAll);
     let w2 = if is_throttle && rng.chance(1, 4) { Some(*rng.pick(&[0u32, 1, 3, 7])) } else { None };
-    serde_json::to_value(Case { op, w, shared_sched: rng.chance(1, 3), steps, w2 }).unwrap()
+    let twin = if rng.chance(1, 4) { rng.range(1, 2) as u8 } else { 0 };
+    serde_json::to_value(Case { op, w, shared_sched: rng.chance(1, 3), steps, w2, twin }).unwrap()
   }
 
   fn run(&self, case: &Value) -> Result<Outcome, String> {
     let case: Case = serde_json::from_value(case.clone()).map_err(|e| e.to_string())?;
     let timed_op = matches!(case.op, ROp::Debounce | ROp::ThrottleLeading | ROp::ThrottleTailing | ROp::ThrottleAll);
-    if (case.w == 0 && !timed_op) || case.w > 5000 || case.steps.len() > 20 || matches!(case.op, ROp::BufferCountTime(0)) {
+    if (case.w == 0 && !timed_op) || case.w > 5000 || case.steps.len() > 20 || matches!(case.op, ROp::BufferCountTime(0)) || case.twin > 2 {
       return Err("bad shape".into());
     }
     let wd = World::new();
@@ -280,8 +309,9 @@ impl Scenario for C09 {
       ($s:expr) => {{
         let s = $s;
         let src = hot.clone();
+        let tw = case.twin;
         let b: Box<dyn std::any::Any> = match case.op {
-          ROp::Debounce => Box::new(src.debounce(dur, s).actual_subscribe(p)),
+          ROp::Debounce => sub_twin(src.debounce(dur, s), p, tw),
           ROp::ThrottleLeading | ROp::ThrottleTailing | ROp::ThrottleAll => {
             let edge = match case.op {
               ROp::ThrottleLeading => ThrottleEdge::leading(),
@@ -289,16 +319,19 @@ impl Scenario for C09 {
               _ => ThrottleEdge::all(),
             };
             match case.w2 {
-              None => Box::new(src.throttle_time(dur, edge, s).actual_subscribe(p)),
+              // throttle_time boxes its selector (not Clone): the twin goes through
+              // throttle with a constant selector, which is what throttle_time builds
+              None if tw == 0 => Box::new(src.throttle_time(dur, edge, s).actual_subscribe(p)),
+              None => sub_twin(src.throttle(move |_: &Val| dur, edge, s), p, tw),
               Some(w2) => {
                 let d2 = Duration::from_millis(w2 as u64);
-                Box::new(src.throttle(move |v: &Val| if matches!(v, Val::I(i) if i % 2 == 0) { d2 } else { dur }, edge, s).actual_subscribe(p))
+                sub_twin(src.throttle(move |v: &Val| if matches!(v, Val::I(i) if i % 2 == 0) { d2 } else { dur }, edge, s), p, tw)
               }
             }
           }
-          ROp::Sample => Box::new(src.sample_threads(observable::interval(dur, s).on_error_map(|_| 0)).actual_subscribe(p)),
-          ROp::BufferTime => Box::new(src.buffer_with_time(dur, s).map(Val::L).actual_subscribe(p)),
-          ROp::BufferCountTime(c) => Box::new(src.buffer_with_count_and_time(c, dur, s).map(Val::L).actual_subscribe(p)),
+          ROp::Sample => sub_twin(src.sample_threads(observable::interval(dur, s).on_error_map(|_| 0)), p, tw),
+          ROp::BufferTime => sub_twin(src.buffer_with_time(dur, s).map(Val::L), p, tw),
+          ROp::BufferCountTime(c) => sub_twin(src.buffer_with_count_and_time(c, dur, s).map(Val::L), p, tw),
         };
         b
       }};
